@@ -157,6 +157,11 @@ def replay_history(entry, steps, kind, basis=None):
     m, ins, outs = entry.make()
     if kind == "slice":
         ins = as_slices(m, ins)
+    if kind == "fortran":
+        # the same values in column-major memory (what .T, scipy.linalg routines or loadmat hand out)
+        for sg in ins:
+            if isinstance(sg.state, np.ndarray) and sg.state.ndim == 2:
+                sg.state = np.asfortranarray(sg.state)
     w1 = w2 = g1 = g2 = None
     for i, stp in enumerate(steps):
         op = stp["op"]
@@ -251,7 +256,7 @@ def run(chk, replay=None):
         if res is not None:
             chk.violation(signature(replay["module"], res[1]), res[2], replay)
         return
-    chk.extra["rule"] = ("a case is (module configuration from modtable.py, seed representation dense/dyadic/real-typed on complex outputs or input-signal realisation prealloc/slice, history emitted by "
+    chk.extra["rule"] = ("a case is (module configuration from modtable.py, seed representation dense/dyadic/real-typed on complex outputs or input-signal realisation prealloc/slice/column-major, history emitted by "
                          "TLC from ModuleProto.tla); non-trivial = the history contains at least one Sens after a SetSeed")
     chk.assumptions += ["the module is deterministic for fixed inputs (reference contributions g1, g2 are measured on a second instance)",
                         "comparison tolerance per module: 1e-9 (direct), 1e-6..1e-8 where an iterative/LAPACK solve is involved"]
@@ -299,7 +304,8 @@ def run(chk, replay=None):
                 jobs.append((idx, kind, part, chk.seed))
         # other realisations of the input signals (allocated sensitivities, SignalSlice views): a sample of the histories with
         # at least two sensitivity calls
-        for kind in ("prealloc", "slice"):
+        has2d = any(isinstance(sg.state, np.ndarray) and sg.state.ndim == 2 for sg in e.make()[1])
+        for kind in ("prealloc", "slice") + (("fortran",) if has2d else ()):
             pick = random.Random(chk.seed * 7919 + idx).sample(loops, min(len(loops), 400 if thorough else 60))
             for part in par.chunks(pick, 6):
                 jobs.append((idx, kind, part, chk.seed))
